@@ -268,11 +268,21 @@ def run_check(spec, tier="quick", replay=None):
 
     ctx["proof_broken"] = proof_broken
     ctx["build_ok"] = ok
+    harness_broken = set()
     # 4-6. correspondence + oracles
     suite_results = []
     if replay is None:
         for suite in spec.suites():
-            r = _run_suite(spec, suite, tier, rng, ctx)
+            try:
+                r = _run_suite(spec, suite, tier, rng, ctx)
+            except core.HarnessBuildError as e:
+                # the harness is an ordinary client program of the library that compiled against the validated tree: the
+                # correspondence of this suite cannot be established on this tree (reported like a broken obligation)
+                proof_broken.append({"file": "harness/" + suite.harness[1][0], "line": 0, "decl": "correspondence-harness:" + suite.name,
+                                     "msg": str(e)[-1500:]})
+                harness_broken.add(suite.name)
+                log("[%s/%s] harness does not build against this tree" % (pid, suite.name))
+                continue
             suite_results.append((suite, r))
         spec.extra_checks(ctx)
     else:
@@ -323,6 +333,8 @@ def run_check(spec, tier="quick", replay=None):
         if not found and tier != "thorough":
             # generic search: thorough budget of every suite with the oracles on
             for suite in spec.suites():
+                if suite.name in harness_broken:
+                    continue
                 r = _run_suite(spec, suite, "thorough", random.Random(sd + 7919), ctx, budget_scale=4)
                 for it in r["crashes"][:1]:
                     c = _shrink(suite, r["exe"], it, "crash")
